@@ -156,6 +156,8 @@ def kwFailFast : Str := ":fail-fast".toList
 def kwError : Str := ":error".toList
 def kwLanguage : Str := ":language".toList
 def kwCst : Str := ":cst".toList
+def nmPlatform : Str := "platform".toList
+def nmLanguage : Str := "language".toList
 
 /-- One non-closing line of the name/marker region. `none` = header rejected (blank line before any marker). -/
 def headerLine (os : Str) (st : HState) (line : Str) : Option HState :=
@@ -165,13 +167,13 @@ def headerLine (os : Str) (st : HState) (line : Str) : Option HState :=
     let head := trimmed.takeWhile (· != '(')
     if head == kwSkip then some { st with seenMarker := true, seenSkip := true }
     else if head == kwPlatform then
-      match markerArg "platform".toList trimmed with
+      match markerArg nmPlatform trimmed with
       | some ps => some { st with seenMarker := true, platform := some (st.platform.getD false || trim ps == os) }
       | none => some st
     else if head == kwFailFast then some { st with seenMarker := true, failFast := true }
     else if head == kwError then some { st with seenMarker := true, seenError := true }
     else if head == kwLanguage then
-      match markerArg "language".toList trimmed with
+      match markerArg nmLanguage trimmed with
       | some l => some { st with seenMarker := true, languages := st.languages ++ [l] }
       | none => some st
     else if head == kwCst then some { st with seenMarker := true, cst := true }
@@ -352,6 +354,9 @@ def fetch (qr : Bool) (st : FState) : Option (Str × FState) :=
     else none
   else some (next, { rest := rest, quote := q, sawParen := sp, didLast := st.didLast })
 
+def pfxMissing : Str := "(MISSING".toList
+def pfxUnexpected : Str := "(UNEXPECTED".toList
+
 def indentStr (n : Nat) : Str := (List.replicate n [' ', ' ']).flatten
 
 /-- Main loop of `format_sexp`; `out` is `formatted`, reversed. -/
@@ -369,7 +374,7 @@ def fmtLoop (qr : Bool) : Nat → FState → Nat → Bool → Str → Str
             let out := if indent > 0 then (indentStr indent).reverse ++ ('\n' :: out) else out
             (indent + 1, hasField, out)
         let out := s.reverse ++ out
-        if "(MISSING".toList.isPrefixOf s || "(UNEXPECTED".toList.isPrefixOf s then
+        if pfxMissing.isPrefixOf s || pfxUnexpected.isPrefixOf s then
           match fetch qr st with
           | none => out   -- `unwrap()` on `None` would panic; cannot happen before the end marker
           | some (s2, st) =>
@@ -428,6 +433,9 @@ inductive Step
 def Entry.corr (e : Entry) (output : Str) : Correction :=
   { name := e.name, input := e.input, output := output, attrsStr := e.attrsStr, hlen := e.hlen, dlen := e.dlen }
 
+def strERROR : Str := "ERROR".toList
+def strMISSING : Str := "MISSING".toList
+
 /-- One iteration of `for (i, language_name) in attributes.languages` with `opts.update`:
 the correction pushed and whether the loop returns early (fail-fast). -/
 def updateLang (fx : Fixes) (e : Entry) (a : Actual) : Correction × Bool :=
@@ -441,7 +449,7 @@ def updateLang (fx : Fixes) (e : Entry) (a : Actual) : Correction × Bool :=
     else
       let expectedOut := if e.attrs.cst then e.output else formatSexp fx e.output
       let actualOut := if e.attrs.cst then actual else formatSexp fx actual
-      if containsSub "ERROR".toList actual || containsSub "MISSING".toList actual then
+      if containsSub strERROR actual || containsSub strMISSING actual then
         (e.corr expectedOut, e.attrs.failFast)
       else (e.corr actualOut, e.attrs.failFast)
 
